@@ -138,6 +138,10 @@ Proof.
   vm_compute in E. discriminate.
 Qed.
 
+Theorem zero_mean_centres_Qc : forall N D (X : @buf Qc),
+  N <> 0%nat -> centred N D (zero_mean N X).
+Proof. intros N D X HN. apply zero_mean_centres_thm. now apply Qc_of_nat_neq0. Qed.
+
 (* non-vacuity of the hypotheses used above, over Qc *)
 Example zero_mean_centres_nonvacuous : (@of_nat Qc _ 3%nat) <> 0%Qc.
 Proof. apply Qc_of_nat_neq0. discriminate. Qed.
@@ -229,3 +233,6 @@ Qed.
 
 Example max_normalise_nonvacuous : max_coeff [-3; 1; 2] = Some 2 /\ 0 < 2.
 Proof. split; reflexivity. Qed.
+
+Example max_normalise_constant_nonvacuous : max_coeff [0; 0; 0] = Some 0 /\ 0 <= 0.
+Proof. split; [reflexivity | discriminate]. Qed.
